@@ -39,7 +39,8 @@ ASSUMPTIONS = ["an interruption of the underlying socket is socket.timeout or an
                "time is the scripted clock (socketutils.time replaced): it moves only when a slow event is delivered, "
                "then far beyond any deadline; timeout is None, 0 or 1000 s",
                "flags=0, sizes >= 0, one thread"]
-TRUSTED = ["Model/C12_Model.v is hand-written; tied to boltons.socketutils by the correspondence run",
+TRUSTED = ["Model/C12_Model.v is hand-written; tied to boltons.socketutils by the correspondence run and, for the three "
+           "loop bodies and the slicing statements, by harness/translators/c12_loops.py + Proofs/C12_SrcEq.v",
            "harness/c12.py scripted socket, scripted clock (boltons.socketutils.time replaced by assignment) and serialiser",
            "bytes/bytearray slicing, find and join of CPython (py_find/firstn/skipn in the model)",
            "int() of a bytes object in base 10 (py_int models white space, sign, underscores), "
@@ -56,7 +57,10 @@ def translators(repo):
     import sys
     sys.path.insert(0, os.path.join(os.path.dirname(os.path.abspath(__file__)), "translators"))
     import c12_consts
-    return {"C12_Gen": c12_consts.translate(repo)}
+    import c12_loops
+    # C12_Gen: constants; C12_Src: the bodies of the recv_until / recv_size / send loops and the slicing
+    # statements after them, as Gallina text (proved equal to the model's iteration in Proofs/C12_SrcEq.v)
+    return {"C12_Gen": c12_consts.translate(repo), "C12_Src": c12_loops.translate(repo)}
 
 
 # --------------------------------------------------------------------------
